@@ -173,6 +173,10 @@ func (r *Run) Assume(s string) { r.Assumptions = append(r.Assumptions, s) }
 func (r *Run) Finish() {
 	r.mu.Lock()
 	defer r.mu.Unlock()
+	if os.Getenv("VERIF_SUB") != "" {
+		r.finishSub()
+		return
+	}
 	if _, ok := r.Coverage["samples"]; !ok {
 		r.Coverage["samples"] = r.samples
 	}
@@ -271,4 +275,82 @@ func sanitize(s string) string {
 		s = s[:80]
 	}
 	return s
+}
+
+// ---- sub-process mode: a harness re-executed as a shard / variant writes its counters and
+// violations as JSON to the file named by VERIF_SUB and the parent merges them.
+
+type subResult struct {
+	Counters   map[string]int         `json:"counters"`
+	Other      map[string]interface{} `json:"other"`
+	Viol       []Violation            `json:"viol"`
+	ViolKeys   map[string]int         `json:"viol_keys"`
+	Nontrivial []string               `json:"nontrivial"`
+	Samples    []interface{}          `json:"samples"`
+	Caps       []string               `json:"caps"`
+}
+
+func (r *Run) finishSub() {
+	res := subResult{Counters: map[string]int{}, Other: map[string]interface{}{}, Viol: r.viol, ViolKeys: r.violKeys, Samples: r.samples, Caps: r.caps}
+	for k, v := range r.Coverage {
+		if n, ok := v.(int); ok {
+			res.Counters[k] = n
+		} else {
+			res.Other[k] = v
+		}
+	}
+	for k := range r.nontrivial {
+		res.Nontrivial = append(res.Nontrivial, k)
+	}
+	b, err := json.Marshal(res)
+	if err != nil {
+		Broken("sub result does not marshal: %v", err)
+	}
+	if err := os.WriteFile(os.Getenv("VERIF_SUB"), b, 0o644); err != nil {
+		Broken("cannot write sub result: %v", err)
+	}
+	os.Exit(0)
+}
+
+// Merge folds a sub-process result file into this run. prefix is put in front of violation keys
+// and nontrivial keys ("" for plain shards of the same space).
+func (r *Run) Merge(path, prefix string) {
+	b, err := os.ReadFile(path)
+	if err != nil {
+		Broken("sub result missing: %v", err)
+	}
+	var res subResult
+	if err := json.Unmarshal(b, &res); err != nil {
+		Broken("sub result does not parse: %v", err)
+	}
+	r.mu.Lock()
+	defer r.mu.Unlock()
+	for k, n := range res.Counters {
+		c, _ := r.Coverage[k].(int)
+		r.Coverage[k] = c + n
+	}
+	for k, v := range res.Other {
+		if _, ok := r.Coverage[prefix+k]; !ok {
+			r.Coverage[prefix+k] = v
+		}
+	}
+	for k, n := range res.ViolKeys {
+		r.violKeys[prefix+k] += n
+	}
+	for _, v := range res.Viol {
+		v.Key = prefix + v.Key
+		r.viol = append(r.viol, v)
+	}
+	for _, k := range res.Nontrivial {
+		r.nontrivial[prefix+k] = struct{}{}
+	}
+	for _, s := range res.Samples {
+		if len(r.samples) < 8 {
+			r.samples = append(r.samples, s)
+		}
+	}
+	for _, c := range res.Caps {
+		r.caps = append(r.caps, c)
+		r.Exhaustive = false
+	}
 }
